@@ -284,8 +284,11 @@ def itemOfJson (j : Json) : Except String Item := do
     let vt ← getOptStr j "vt"
     let rng ← rngOfJson (← j.getObjVal? "rng")
     let n ← getStr j "n"
+    let ats ← match j.getObjVal? "attrs" with
+      | .ok (.arr a) => attrsOfJson (.arr a)
+      | _ => pure []
     match d with
-    | some d => pure (.portDecl d vt rng n)
+    | some d => pure (.portDecl d vt rng n ats)
     | none => throw "port declaration needs a direction"
   | "wire" =>
     let ty ← getStr j "ty"
@@ -360,7 +363,7 @@ def viewOfSt (s : St) : Json :=
       ("params", ofParams d.params), ("attrs", ofOpt ofAttrs d.attrs),
       ("ports", ofList (fun (p : Port) => Json.mkObj [("name", ofOpt Json.str p.name), ("dir", Json.str (dirName p.dir)),
           ("lower", ofInt p.lower), ("width", ofNat p.pins.length), ("downto", Json.bool p.downto),
-          ("pins", ofList pinJ p.pins)]) d.ports),
+          ("attrs", ofOpt ofAttrs p.attrs), ("pins", ofList pinJ p.pins)]) d.ports),
       ("cables", ofList (fun (c : Cable) => Json.mkObj [("name", Json.str c.name), ("lower", ofInt c.lower),
           ("width", ofNat c.wires.length), ("downto", Json.bool c.downto), ("ctype", ofOpt Json.str c.ctype),
           ("attrs", ofOpt ofAttrs c.attrs)]) d.cables),
@@ -397,7 +400,7 @@ def ofRng (r : Option (Int × Int)) : Json :=
 
 open Spydr.Verilog.Elab in
 def ofItem : Item → Json
-  | .portDecl d vt rng n => Json.mkObj [("t", Json.str "port"), ("dir", dirWord d), ("vt", ofOpt Json.str vt), ("rng", ofRng rng), ("n", Json.str n)]
+  | .portDecl d vt rng n a => Json.mkObj [("t", Json.str "port"), ("dir", dirWord d), ("vt", ofOpt Json.str vt), ("rng", ofRng rng), ("n", Json.str n), ("attrs", ofAttrs a)]
   | .wireDecl ty rng n a => Json.mkObj [("t", Json.str "wire"), ("ty", Json.str ty), ("rng", ofRng rng), ("n", Json.str n), ("attrs", ofAttrs a)]
   | .inst m n ps a named cs => Json.mkObj [("t", Json.str "inst"), ("mod", Json.str m), ("n", Json.str n), ("params", ofParams ps),
       ("attrs", ofAttrs a), ("named", Json.bool named),
